@@ -71,6 +71,9 @@ def proof_items():
 
 # ---- construction-level faults on call-level DAGs --------------------------------------------------------------
 def _dag_cases(tier, rng):
+    for bound in (True, False):
+        for order in (False, True):
+            yield {"dag": {"funcs": []}, "fault": "dataclass-function", "bound": bound, "order": order}
     for _ in range(400 if tier == "quick" else 4000):
         d = dag.gen_dag(rng, rng.randint(2, 4), allow_renames=False)
         fs = d["funcs"]
@@ -119,6 +122,53 @@ def _dag_cases(tier, rng):
                 yield {"dag": m, "fault": "inconsistent-defaults"}
 
 
+import dataclasses as _dc
+
+
+@_dc.dataclass
+class _Settings:
+    """A dataclass used as a pipeline function: its fields are its parameters, field defaults are parameter defaults."""
+    scale: str = "S_default"
+    offset: str = "O_default"
+
+    def __post_init__(self) -> None:
+        progs.log_call("Settings", f"Settings(scale={self.scale},offset={self.offset})")
+
+
+def _uses_scale(x, scale):
+    progs.log_call("g", f"g(x={x},scale={scale})")
+    return (x, scale)
+
+
+def _check_dataclass_function(case):
+    """A missing input whose name is also a (defaulted) field of a dataclass function - bound there, or not."""
+    from pipefunc import PipeFunc, Pipeline
+    bound = {"scale": "S_bound"} if case["bound"] else {}
+    fs = [PipeFunc(_Settings, output_name="settings", bound=bound), PipeFunc(_uses_scale, output_name="y")]
+    if case["order"]:
+        fs.reverse()
+    log: list = []
+    progs.set_log(log)
+    try:
+        p = Pipeline(fs)
+        if not case["bound"]:
+            # the field default is a default of the root argument: a call without it is well-formed
+            return [] if p("y", x="vx") == ("vx", "S_default") else ["unbound dataclass field default not applied"]
+        for how in ("call", "map"):
+            log.clear()
+            try:
+                p("y", x="vx") if how == "call" else p.map({"x": "vx"}, parallel=False, storage="dict")
+            except Exception:  # noqa: BLE001
+                if log:
+                    return [f"missing-input ({how}): user code ran before the rejection: {[n for n, _ in log]}"]
+                continue
+            return [f"missing-input ({how}): `scale` is bound in the dataclass function only and has no default for the "
+                    f"other function, but the request without it was accepted"]
+        return []
+    finally:
+        progs.set_log(None)
+
+
 def _depends_on(d, f, names):
     prod = dag.producers(d)
     seen = set()
@@ -135,6 +185,8 @@ def _depends_on(d, f, names):
 
 
 def _check_dag(case):
+    if case.get("fault") == "dataclass-function":
+        return _check_dataclass_function(case)
     log: list = []
     progs.set_log(log)
     try:
